@@ -515,57 +515,120 @@ def oracle_pairs(D):
 
 
 def oracle_efc(D):
-    """equality / limit rows of efc_J vs central differences of efc_pos"""
+    """constraint rows of every kind: efc_J row = d efc_pos / d q by central differences (equalities, joint / tendon limits,
+    contact normals), friction rows = the derivative of the dof coordinate / tendon length, dense rows = sparse rows.
+    returns (violations, number of rows judged, strata)"""
     f = []
+    st = {}
     nv, nefc = D["nv"][0], D["nefc"][0]
     if nefc == 0 or nv == 0:
-        return f, 0
+        return f, 0, st
     eps = D["eps"][0]
     ty, idd = D["efc_type"], D["efc_id"]
-    # row index inside its constraint
     within, prev, cnt = [], None, 0
     for i in range(nefc):
         key = (ty[i], idd[i])
         cnt = cnt + 1 if key == prev else 0
         prev = key
         within.append(cnt)
+    same = all(D.get("%s%d_efc_type" % (sg, k)) == ty and D.get("%s%d_efc_id" % (sg, k)) == idd for k in range(nv) for sg in "PM")
+    sparse_ok = D.get("nefc_sparse", [None])[0] == nefc and D.get("sp_efc_type") == ty and D.get("sp_efc_id") == idd
+
+    def fdrow(i):
+        return [(D["P%d_efc_pos" % k][i] - D["M%d_efc_pos" % k][i]) / (2 * eps) for k in range(nv)]
+
+    def drow(i):
+        return D["efc_J"][i * nv:(i + 1) * nv]
+
+    def srow(i):
+        return D["efc_Jsp"][i * nv:(i + 1) * nv]
+
+    def judge(law, i, exp, extra=None, tol=1e-5):
+        for kind, row in [("dense", drow(i))] + ([("sparse", srow(i))] if sparse_ok else []):
+            sc = 1 + max(abs(x) for x in row + exp)
+            if maxdiff(row, exp) > tol * sc:
+                det = {"row": i, "efc_type": ty[i], "efc_id": idd[i], "within": within[i], "jacobian": kind}
+                det.update(extra or {})
+                f.append((law, det, exp, row))
+                return
     nrows = 0
+    # dense = sparse, every row of every kind
+    if sparse_ok:
+        st["rows_dense_vs_sparse"] = nefc
+        for i in range(nefc):
+            a, b_ = drow(i), srow(i)
+            if maxdiff(a, b_) > 1e-12 * (1 + max(abs(x) for x in a + b_)):
+                f.append(("efc_J row: dense Jacobian = sparse Jacobian", {"row": i, "efc_type": ty[i], "efc_id": idd[i], "within": within[i]}, b_, a))
+                break
+    # tendon Jacobian = d ten_length / d q
+    ntend = len(D.get("ten_length", []))
+    for t in range(ntend):
+        if not all(("%s%d_ten_length" % (sg, k)) in D for k in range(nv) for sg in "PM"):
+            break
+        fd = [(D["P%d_ten_length" % k][t] - D["M%d_ten_length" % k][t]) / (2 * eps) for k in range(nv)]
+        row = D["ten_J"][t * nv:(t + 1) * nv]
+        if maxdiff(row, fd) > 1e-5 * (1 + max(abs(x) for x in row + fd)):
+            f.append(("ten_J row = d ten_length / d q (central difference over mj_integratePos)", {"tendon": t}, fd, row))
     for i in range(nefc):
+        if ty[i] == 1:          # dof friction loss: the row is the derivative of the dof coordinate itself
+            nrows += 1
+            st["friction_dof_rows"] = st.get("friction_dof_rows", 0) + 1
+            j = D["dof_jntid"][idd[i]]
+            if D["jnt_qposadr"][j] != D["jnt_dofadr"][j]:
+                st["friction_dof_rows_qposadr_ne_dofadr"] = st.get("friction_dof_rows_qposadr_ne_dofadr", 0) + 1
+            judge("friction-loss row of a dof = unit vector of that dof", i, [1.0 if k == idd[i] else 0.0 for k in range(nv)], tol=1e-12)
+            continue
+        if ty[i] == 2:          # tendon friction loss: the tendon Jacobian
+            nrows += 1
+            st["friction_tendon_rows"] = st.get("friction_tendon_rows", 0) + 1
+            judge("friction-loss row of a tendon = ten_J row (= d ten_length / d q)", i, D["ten_J"][idd[i] * nv:(idd[i] + 1) * nv], tol=1e-12)
+            continue
+        if not same:
+            continue
         if ty[i] == 0:
             et = D["eq_type"][idd[i]]
-            if et == 1 and within[i] >= 3:     # weld rotation rows: efc_pos is a scaled quaternion difference, J is not its exact derivative
+            if (et == 1 and within[i] >= 3) or et > 3:      # weld rotation rows: efc_pos is a scaled quaternion difference
                 continue
-            if et > 3:
+            nrows += 1
+            e = idd[i]
+            judge("efc_J row = d efc_pos / d q (central difference over mj_integratePos)", i, fdrow(i),
+                  {"eq_type": et, "eq_data": D["eq_data"][D["neqdata"][0] * e:D["neqdata"][0] * e + 5]})
+        elif ty[i] == 3:
+            nrows += 1
+            j = idd[i]
+            jt = D["jnt_type"][j]
+            key = "limit_rows_%s" % {1: "ball", 2: "slide", 3: "hinge"}.get(jt, "other")
+            st[key] = st.get(key, 0) + 1
+            if D["jnt_qposadr"][j] != D["jnt_dofadr"][j]:
+                st[key + "_qposadr_ne_dofadr"] = st.get(key + "_qposadr_ne_dofadr", 0) + 1
+            judge("efc_J row = d efc_pos / d q (central difference over mj_integratePos)", i, fdrow(i),
+                  {"limit_of_joint": j, "jnt_type": jt, "jnt_qposadr": D["jnt_qposadr"][j], "jnt_dofadr": D["jnt_dofadr"][j]})
+        elif ty[i] == 4:
+            nrows += 1
+            st["limit_rows_tendon"] = st.get("limit_rows_tendon", 0) + 1
+            judge("efc_J row = d efc_pos / d q (central difference over mj_integratePos)", i, fdrow(i), {"limit_of_tendon": idd[i]})
+    # contact normals between smooth geoms (sphere / plane): d distance / d q
+    ci = D.get("contact_info", [])
+    if same:
+        for c in range(len(ci) // 4):
+            g1, g2, dim, adr = ci[4 * c:4 * c + 4]
+            if adr < 0 or not (set((g1, g2)) <= set((0, 2))):
                 continue
-        elif ty[i] in (3, 4):
-            pass
-        else:
-            continue
-        ok = True
-        fd = []
-        for k in range(nv):
-            tp, tm = D.get("P%d_efc_type" % k), D.get("M%d_efc_type" % k)
-            if tp != ty or tm != ty or D.get("P%d_efc_id" % k) != idd or D.get("M%d_efc_id" % k) != idd:
-                ok = False
-                break
-            fd.append((D["P%d_efc_pos" % k][i] - D["M%d_efc_pos" % k][i]) / (2 * eps))
-        if not ok:
-            continue
-        nrows += 1
-        variants = [("dense", D["efc_J"][i * nv:(i + 1) * nv])]
-        if D.get("nefc_sparse", [None])[0] == nefc and D.get("sp_efc_type") == ty and D.get("sp_efc_id") == idd:
-            variants.append(("sparse", D["efc_Jsp"][i * nv:(i + 1) * nv]))
-        for (kind, row) in variants:
-            sc = 1 + max(abs(x) for x in row + fd)
-            if maxdiff(row, fd) > 1e-5 * sc:
-                det = {"row": i, "efc_type": ty[i], "efc_id": idd[i], "within": within[i], "jacobian": kind}
-                if ty[i] == 0:
-                    e = idd[i]
-                    det["eq_type"] = D["eq_type"][e]
-                    det["eq_data"] = D["eq_data"][D["neqdata"][0] * e:D["neqdata"][0] * e + 5]
-                f.append(("efc_J row = d efc_pos / d q (central difference over mj_integratePos)", det, fd, row))
-                break
-    return f, nrows
+            if ty[adr] == 5 or ty[adr] == 7:
+                rows = [adr]
+            elif ty[adr] == 6 and dim >= 3 and adr + 1 < nefc:
+                rows = [adr, adr + 1]                  # pyramid edges n + mu t and n - mu t: their mean is the normal row
+            else:
+                continue
+            nrows += 1
+            st["contact_normal_rows"] = st.get("contact_normal_rows", 0) + 1
+            fd = fdrow(adr)
+            for kind, get in [("dense", drow)] + ([("sparse", srow)] if sparse_ok else []):
+                row = [sum(get(r)[k] for r in rows) / len(rows) for k in range(nv)]
+                if maxdiff(row, fd) > 1e-5 * (1 + max(abs(x) for x in row + fd)):
+                    f.append(("contact normal row of efc_J = d distance / d q (sphere / plane pairs, central difference)", {"contact": c, "row": adr, "efc_type": ty[adr], "jacobian": kind}, fd, row))
+                    break
+    return f, nrows, st
 
 
 # ------------------------------------------------------------------------------------- the check
@@ -597,20 +660,21 @@ def run(ctx):
         jreq.append((rng.randrange(1, 10 ** 6), feats[i % len(feats)], nb, 0 if i % 7 == 6 else 1 + i))
     jreq.sort(key=lambda r: r[2])
     ereq = []
-    ne = 8 if not big else 50
+    ne = 12 if not big else 60
+    na_fixed = 6 if not big else 12       # fixed corpus of address spaces (driver op A)
     nq_fixed = 6 if not big else 12       # fixed corpus of coupling polynomials (driver op Q)
     sreq = [(rng.randrange(1, 10 ** 6), i) for i in range(10 if not big else 60)]     # simple bodies on static mounts (driver op S)
     efeat = base | FEAT["FREE"] | FEAT["BALL"] | FEAT["SLIDE"] | FEAT["EQUALITY"] | FEAT["LIMIT"] | FEAT["TENDON"]
     for i in range(ne):
-        ereq.append((rng.randrange(1, 10 ** 6), efeat | (FEAT["MULTITREE"] if i % 2 else 0) | (FEAT["FIXED"] if i % 3 != 2 else 0), rng.choice([2, 3, 4, 5]), 1 + i))
-    inp = "".join("K %d %d %d %d\n" % r for r in kreq) + "".join("J %d %d %d %d\n" % r for r in jreq) + "".join("E %d %d %d %d\n" % r for r in ereq) + "".join("Q %d\n" % k for k in range(nq_fixed)) + "".join("S %d %d\n" % r for r in sreq) + "R\n"
+        ereq.append((rng.randrange(1, 10 ** 6), efeat | (FEAT["MULTITREE"] if i % 2 else 0) | (FEAT["FIXED"] if i % 3 != 2 else 0) | ((FEAT["CONTACT"] | (1 << 14)) if i % 4 == 3 else 0), rng.choice([2, 3, 4, 5]), 1 + i))
+    inp = "".join("K %d %d %d %d\n" % r for r in kreq) + "".join("J %d %d %d %d\n" % r for r in jreq) + "".join("E %d %d %d %d\n" % r for r in ereq) + "".join("Q %d\n" % k for k in range(nq_fixed)) + "".join("S %d %d\n" % r for r in sreq) + "".join("A %d\n" % k for k in range(na_fixed)) + "R\n"
     rc, out, err = ctx.run(exe, inp)
     blocks = parse_blocks(out)
-    if rc != 0 or len(blocks) != len(kreq) + len(jreq) + len(ereq) + nq_fixed + len(sreq) + 1:
-        ctx.broken.append(("correspondence", "driver c07_kin failed", "rc=%s blocks=%d/%d %s" % (rc, len(blocks), len(kreq) + len(jreq) + len(ereq) + nq_fixed + len(sreq) + 1, err[-800:])))
+    if rc != 0 or len(blocks) != len(kreq) + len(jreq) + len(ereq) + nq_fixed + len(sreq) + na_fixed + 1:
+        ctx.broken.append(("correspondence", "driver c07_kin failed", "rc=%s blocks=%d/%d %s" % (rc, len(blocks), len(kreq) + len(jreq) + len(ereq) + nq_fixed + len(sreq) + na_fixed + 1, err[-800:])))
         return
     kb, jb, eb = blocks[:len(kreq)], blocks[len(kreq):len(kreq) + len(jreq)], blocks[len(kreq) + len(jreq):-1]
-    ereq = ereq + [("Q", k) for k in range(nq_fixed)] + [("S", r[0], r[1]) for r in sreq]
+    ereq = ereq + [("Q", k) for k in range(nq_fixed)] + [("S", r[0], r[1]) for r in sreq] + [("A", k) for k in range(na_fixed)]
     rb = blocks[-1]
     seen = set()
 
@@ -685,10 +749,12 @@ def run(ctx):
                 eqdescr.append(req)
     for req, D in zip(ereq, eb):
         if "ERR" in D:
-            ctx.violation("impl_violation", {"request": ("E %d %d %d %d" % tuple(req)) if req[0] not in ("Q", "S") else " ".join(str(x) for x in req)}, expected="no mju_error", observed=D["ERR"], theorem="C07", signature={"law": "no error"})
+            ctx.violation("impl_violation", {"request": ("E %d %d %d %d" % tuple(req)) if req[0] not in ("Q", "S", "A") else " ".join(str(x) for x in req)}, expected="no mju_error", observed=D["ERR"], theorem="C07", signature={"law": "no error"})
             continue
-        fl, nrows = oracle_efc(D)
+        fl, nrows, rst = oracle_efc(D)
         counts["efc_rows"] += nrows
+        for k_, v_ in rst.items():
+            eqstrata[k_] = eqstrata.get(k_, 0) + v_
         if req[0] == "S":
             pf, hard = oracle_pairs(D)
             fl = fl + pf
@@ -703,6 +769,8 @@ def run(ctx):
         for (law, detail, exp, obs) in fl:
             if req[0] == "S":
                 report(law, (req[1], req[2], 0, 0), "S", detail, exp, obs, "C07 (oracle only)")
+            elif req[0] == "A":
+                report(law, (req[1], 0, 0, 0), "A", detail, exp, obs, "C07 (oracle only)")
             elif req[0] == "Q":
                 report(law, (req[1], 0, 0, 0), "Q", detail, exp, obs, "C07_eq_poly_row")
             else:
@@ -724,7 +792,7 @@ def run(ctx):
     # its constraint rows are judged by the same finite-difference oracle.
     ctx.cov["support"]["repeated_joint_fixed_tendon_rejected_by_compiler"] = bool(rb.get("rejected", [0])[0])
     if not rb.get("rejected", [0])[0] and "efc_J" in rb:
-        fl, nrows = oracle_efc(rb)
+        fl, nrows, _ = oracle_efc(rb)
         counts["efc_rows"] += nrows
         for (law, detail, exp, obs) in fl:
             report(law, (0, 0, 0, 0), "R", dict(detail, model="one hinge, fixed tendon j0*1 + j0*2, limited"), exp, obs, "C07 (oracle only)")
@@ -742,7 +810,7 @@ def run(ctx):
                           eqlits, "chk", pre=EQ_PRE, shard=100)
     if efails:
         req = eqdescr[efails[0]]
-        ctx.violation("correspondence", {"request": " ".join(str(x) for x in req) if req[0] in ("Q", "S") else "E %d %d %d %d" % tuple(req), "part": "joint/tendon equality row"},
+        ctx.violation("correspondence", {"request": " ".join(str(x) for x in req) if req[0] in ("Q", "S", "A") else "E %d %d %d %d" % tuple(req), "part": "joint/tendon equality row"},
                       expected="model output (Model/EqPoly.v at binary64, tolerance 2^-30 scaled)", observed="efc_pos / efc_J row of the implementation differs", found_input=False,
                       theorem="correspondence c07 equality row", signature={"part": "joint/tendon equality row"},
                       note="implementation and Coq model disagree; see the oracle violations (if any) for a failing input")
@@ -771,7 +839,9 @@ def run(ctx):
     ctx.cov["support"]["oracle_requests"] = {"J": len(jreq), "E": len(ereq)}
     ctx.cov["support"]["tree_strata"] = {"tie": strata["K"], "oracle": strata["J"]}
     ctx.cov["support"]["equality_polynomial_strata"] = eqstrata
-    for key in ["joint_pair_degree%d_term" % k for k in range(1, 5)] + ["tendon_pair_degree4_term", "blocks_with_sparse_rows_checked", "simple_pairs_with_rotational_leaf_on_a_mount", "connect_weld_between_simple_bodies_on_a_mount"]:
+    for key in ["joint_pair_degree%d_term" % k for k in range(1, 5)] + ["tendon_pair_degree4_term", "blocks_with_sparse_rows_checked", "simple_pairs_with_rotational_leaf_on_a_mount", "connect_weld_between_simple_bodies_on_a_mount",
+                "limit_rows_ball_qposadr_ne_dofadr", "limit_rows_hinge_qposadr_ne_dofadr", "limit_rows_slide_qposadr_ne_dofadr", "limit_rows_tendon",
+                "friction_dof_rows_qposadr_ne_dofadr", "friction_tendon_rows", "rows_dense_vs_sparse"]:
         if eqstrata.get(key, 0) == 0:
             ctx.broken.append(("correspondence", "constraint-row oracle: stratum '%s' was not reached" % key, str(eqstrata)))
     for grp, name in (("K", "tie"), ("J", "Jacobian / velocity oracle")):
